@@ -26,10 +26,23 @@ import (
 
 type T = testproto.TestAllTypes
 
-func msg(v int) *T { return &T{DefaultInt32: int32(v)} }
+// nested: the number the predicates read lives in a sub-message (default_nested_message.a), next to a sibling the
+// histories never touch, and updates write it through an update mask naming just that path - the stored item and
+// the event's old value are then two messages that must not share the sub-message the update writes into
+var nested bool
+
+func msg(v int) *T {
+	if nested {
+		return &T{DefaultNestedMessage: &testproto.TestAllTypes_NestedMessage{A: int32(v)}}
+	}
+	return &T{DefaultInt32: int32(v)}
+}
 func vOf(m proto.Message) int {
 	if m == nil {
 		return 0
+	}
+	if nested {
+		return int(m.(*T).GetDefaultNestedMessage().GetA())
 	}
 	return int(m.(*T).DefaultInt32)
 }
@@ -145,6 +158,10 @@ func apply(col *resource.Collection, w wop) error {
 	case "add":
 		_, err = col.Add(w.ID, msg(w.V))
 	case "update":
+		if nested {
+			_, err = col.Update(w.ID, msg(w.V), resource.WithUpdatePaths("default_nested_message.a"))
+			break
+		}
 		_, err = col.Update(w.ID, msg(w.V))
 	case "delete":
 		_, err = col.Delete(w.ID)
@@ -457,10 +474,13 @@ type bcase struct {
 	BP     bool
 	Masked bool
 	SubA   int
+	Nested bool
 }
 
 func runSeq(c bcase) (string, string) {
 	var fk, fm string
+	nested = c.Nested
+	defer func() { nested = false }()
 	res := verifrt.RunOnce(nil, false, bodyM(pred(c.P), c.H, c.BP, c.SubA, c.Masked, func(k, m string) {
 		if fk == "" {
 			fk, fm = k, m
@@ -733,6 +753,16 @@ func main() {
 						s.Trans(len(hist))
 						if k, m := runSeq(cm); k != "" {
 							s.Fail(fmt.Sprintf("%s(masked) %v %v sub=%d", k, pred(p), hist, sub), m, cm)
+						}
+					}
+					if p%3 == 1 || s.Thorough {
+						// the same history with the number in a sub-message and updates masked down to it
+						cn := c
+						cn.Nested = true
+						s.Eval(1)
+						s.Trans(len(hist))
+						if k, m := runSeq(cn); k != "" {
+							s.Fail(fmt.Sprintf("%s(nested field, masked updates) %v %v sub=%d", k, pred(p), hist, sub), m, cn)
 						}
 					}
 					s.State(fmt.Sprint(p, hist, sub))
